@@ -243,9 +243,39 @@ func (x *c19) allocateAndProbe(c *sim.RawClient, peer *sim.Peer, opts sim.AllocO
 	// reachability
 	x.m.CreatePermission(c, peer.Addr)
 	st := x.m.Begin()
-	st.PeerSend(peer, relay, []byte(fmt.Sprintf("reach-%s-%d", c.Name, x.rng.Int63())))
+	e0 := st.PeerSend(peer, relay, []byte(fmt.Sprintf("reach-%s-%d", c.Name, x.rng.Int63())))
 	st.End()
+	if e0.V == sim.MustForward && e0.Matched() == 0 {
+		x.rec.Violate("relay-unreachable", "sim/"+transportName(c.IsTCP), "%s: a permitted peer's datagram to the relayed address %s the Allocate success reported did not reach the client", c.Name, relay)
+	}
 	x.rec.FP("reachability/%s/fam%d", transportName(c.IsTCP), famOfIP(relay.IP))
+	if !c.IsTCP && c.Listener < len(x.w.ServerUDP) && x.rng.Intn(4) == 0 {
+		// the relayed address stays the place where the peer reaches the client also after the
+		// server's socket has failed to pass one datagram on (ENOBUFS): that one is lost, the next
+		// one arrives
+		sock := x.w.ServerUDP[c.Listener]
+		failed := false
+		to := c.Addr.String()
+		sock.SetWriteHook(func(b []byte, dst net.Addr) (int, error, bool) {
+			if m, err := wire.ParseSTUN(b); failed || dst.String() != to || err != nil || m.Method != wire.MethodData {
+				return 0, nil, false
+			}
+			failed = true
+
+			return 0, errors.New("injected: no buffer space available"), true
+		})
+		_, _ = peer.UDP.WriteTo([]byte("lost-in-the-servers-socket-write"), relay)
+		x.w.Settle()
+		sock.SetWriteHook(nil)
+		x.m.Audit(nil)
+		st := x.m.Begin()
+		e1 := st.PeerSend(peer, relay, []byte(fmt.Sprintf("reach-again-%s-%d", c.Name, x.rng.Int63())))
+		st.End()
+		if e1.V == sim.MustForward && e1.Matched() == 0 {
+			x.rec.Violate("relay-unreachable", "sim/after-failed-write", "%s: after the server's socket had failed to pass one datagram on to the client, the next datagram of the permitted peer to the relayed address %s did not reach the client either (the allocation is still there)", c.Name, relay)
+		}
+		x.rec.FP("reachability-after-a-failed-write/failed=%v", failed)
+	}
 	// the reported LIFETIME is the one in force: a short allocation is there 2 s before and gone 2 s after it
 	if lt, ok := resp.Lifetime(); ok && lt >= 5 && lt <= 120 && x.rng.Intn(2) == 0 {
 		mine := func() bool {
